@@ -272,8 +272,12 @@ pub fn run_chipper(dir: &str, inp: &Input, spec: &RunSpec, joblog: bool, taskset
     let chipper = format!("{bin_dir}/chipper");
     let mut cmd = match (&spec.pin, taskset_ok) {
         (Some(cpus), true) => {
+            // cpu numbers beyond this machine's are folded onto the first one or two cores
+            let ncpu = std::thread::available_parallelism().map(|n| n.get()).unwrap_or(1);
+            let fits = cpus.split('-').all(|x| x.parse::<usize>().map(|v| v < ncpu).unwrap_or(false));
+            let cpus = if fits { cpus.clone() } else if cpus.contains('-') && ncpu >= 2 { "0-1".to_string() } else { "0".to_string() };
             let mut c = Command::new("taskset");
-            c.args(["-c", cpus, &chipper]);
+            c.args(["-c", &cpus, &chipper]);
             c
         }
         _ => Command::new(&chipper),
